@@ -385,6 +385,8 @@ def history_runs(run_, exe, rng, n, prop):
                     d_ = b"\n".join(ls_)
                 s["tree"][x["path"]] = (k_, m_, d_)
             s["how"] = how
+        if prop == "C05" and rng.random() < 0.15:
+            s = scen.dir_stream_scenario(rng)
         if prop == "C05" and rng.random() < 0.25:
             # sections that consist of a git header only
             secs = [scen.headeronly_section(rng, p_, k_) for p_, k_ in zip(rng.sample(["e1", "dir/e2", "e3"], 2), rng.sample(["add", "delete", "rename", "mode"], 2))]
